@@ -75,8 +75,8 @@ func (e *Engine) execStmt(st *State, s ast.Stmt, cx *Ctx) *State {
 		return st
 	case *ast.DeclStmt:
 		gd, ok := n.Decl.(*ast.GenDecl)
-		if !ok {
-			return st
+		if !ok || gd.Tok != token.VAR {
+			return st // local constants and types need no state
 		}
 		for _, sp := range gd.Specs {
 			vs, ok := sp.(*ast.ValueSpec)
